@@ -57,13 +57,13 @@ func main() {
 		cipherCase(r, rg, n, cs)
 	})
 	if r.ReplayOf() == nil || r.ReplayOf().Phase == "nonce" {
-		nonceCase(r, r.N(3000, 20000))
+		nonceCase(r, r.N(3000, 200000))
 	}
-	npass := r.N(12, 120)
+	npass := r.N(12, 1500)
 	r.Parallel("passphrase", npass, evid.Workers(), func(i int, cs int64) {
 		passCase(r, rand.New(rand.NewSource(cs)), i, cs)
 	})
-	r.Parallel("manager", r.N(2, 10), 2, func(i int, cs int64) {
+	r.Parallel("manager", r.N(2, 60), 4, func(i int, cs int64) {
 		managerCase(r, rand.New(rand.NewSource(cs)), cs)
 	})
 	_ = rng
